@@ -298,6 +298,24 @@ def vecBuffer (M A : Nat) (data : List F) (filler : F) : List F :=
   let (lo, hi) := getLims M A data.length
   vec M (fun i => if lo ≤ i ∧ i < hi then data.getD (i - lo) 0 else filler)
 
+/-- Body of the chunk loop of `poseidon_varlen` for chunk `i`: switch `updating` on at the first
+payload chunk (`rounded_len == MAX_LEN - i * RATE`), zero the cells after the payload in the last
+chunk (`constrain_last_chunk`), and `cond_update` the register. -/
+def varlenStep (P : PParams F) (perm : List F → List F) (maxLen : Nat) (buffer : List F) (len : Nat)
+    (s : List F × Bool) (i : Nat) : List F × Bool :=
+  let rate := P.rate
+  let lastChunkLen := len % rate
+  let roundedLen := if lastChunkLen = 0 then len - lastChunkLen else len - lastChunkLen + rate
+  let b := decide (roundedLen = maxLen - i * rate)
+  let updating := xor b s.2
+  let chunk := vec rate (fun j => buffer.getD (i * rate + j) 0)
+  let chunk := if i + 1 = maxLen / rate then
+      -- `constrain_last_chunk`
+      vec rate (fun j => if lastChunkLen ≠ 0 ∧ lastChunkLen ≤ j then 0 else chunk.getD j 0)
+    else chunk
+  let upd := perm (vec P.width (fun j => if j < rate then s.1.getD j 0 + chunk.getD j 0 else s.1.getD j 0))
+  (if updating then upd else s.1, updating)
+
 /-- `poseidon_varlen`: the digest computed in circuit for a buffer of `maxLen` cells and the
 length `len` (as a number; the circuit asserts `len ≤ MAX_LEN`). The last chunk
 (`i + 1 == MAX_LEN / RATE`) goes through `constrain_last_chunk`, which zeroes the cells after the
@@ -305,22 +323,9 @@ payload (before fix 7fb7af7 the test was `i == MAX_LEN / RATE`, never true, and 
 odd-length payload depended on the filler). -/
 def varlen (P : PParams F) (ofNat : Nat → F) (perm : List F → List F) (maxLen : Nat)
     (buffer : List F) (len : Nat) : F :=
-  let rate := P.rate
-  let lastChunkLen := len % rate
-  let roundedLen := if lastChunkLen = 0 then len - lastChunkLen else len - lastChunkLen + rate
-  let reg0 := vec P.width (fun i => if i = rate then ofNat len else 0)
-  let nChunks := (maxLen + rate - 1) / rate
-  let step : (List F × Bool) → Nat → (List F × Bool) := fun (reg, updating) i =>
-    let b := decide (roundedLen = maxLen - i * rate)
-    let updating := xor b updating
-    let chunk := vec rate (fun j => buffer.getD (i * rate + j) 0)
-    let chunk := if i + 1 = maxLen / rate then
-        -- `constrain_last_chunk`
-        vec rate (fun j => if lastChunkLen ≠ 0 ∧ lastChunkLen ≤ j then 0 else chunk.getD j 0)
-      else chunk
-    let upd := perm (vec P.width (fun j => if j < rate then reg.getD j 0 + chunk.getD j 0 else reg.getD j 0))
-    (if updating then upd else reg, updating)
-  ((List.range nChunks).foldl step (reg0, false)).1.getD 0 0
+  let reg0 := vec P.width (fun i => if i = P.rate then ofNat len else 0)
+  let nChunks := (maxLen + P.rate - 1) / P.rate
+  ((List.range nChunks).foldl (varlenStep P perm maxLen buffer len) (reg0, false)).1.getD 0 0
 
 end
 
